@@ -248,6 +248,9 @@ func TestWorker(t *testing.T) {
 		rr := p.Run(tp, st, tier)
 		st.Runs++
 		sum.LastRun = run
+		if errs := takeSelfCheckErrs(); len(errs) > 0 && rr.Harness == "" {
+			rr.Harness = "construction self-check: " + errs[0]
+		}
 		if rr.Harness != "" {
 			if len(sum.Harness) < 5 {
 				sum.Harness = append(sum.Harness, fmt.Sprintf("run %d: %s", run, rr.Harness))
